@@ -10,9 +10,9 @@
     * `tagged_begin/enum_begin` are no-ops: `Some(v)` and a newtype variant are their payload, a unit
       variant / unit struct is the text of its label, `None` / `()` are `null`
     * records and struct variants are maps keyed by the field labels, tuples are sequences
-  Value position: `null` writes no `AnyValue` at all (`self.stream.null()`); in a `KeyValue` the value is then
-  absent, in an `ArrayValue` the element is *dropped* by the protobuf writer (sval_protobuf omits null
-  elements) — the model follows the protobuf form, the JSON form keeps a `null` element (known finding).
+  Value position: `null` writes an `AnyValue` with no value set (an empty record; after the repair
+  `fix: OTLP any-value bridge keeps null elements of a sequence` — before it nothing was written and the protobuf
+  array lost the element while the JSON array got a bare `null`).
   Key position (`in_map_key`): OTLP keys are strings. Text is written as is; `null` leaves the key empty;
   `bool`/`i64`/`f64` keys are written as their Display text (after the repair
   `fix: OTLP any-value bridge writes scalar map keys as text`; before it every non-text key hit `todo!()`);
@@ -92,11 +92,10 @@ def anyValue : V → Enc AnyValue
   | .some v => anyValue v
   | .nvar _ v => anyValue v
   | .uvar l => .ok (.str l)
-/-- elements of a sequence; an element that wrote nothing (`null`) is not in the protobuf array -/
+/-- elements of a sequence, one `AnyValue` per element (a `null` element is the empty `AnyValue`) -/
 def anyElems : List V → Enc (List AnyValue)
   | [] => .ok []
-  | x :: xs => (anyValue x).bind fun a => (anyElems xs).bind fun as =>
-      .ok (if a.isEmpty then as else a :: as)
+  | x :: xs => (anyValue x).bind fun a => (anyElems xs).bind fun as => .ok (a :: as)
 def anyEntries : List (V × V) → Enc (List (String × AnyValue))
   | [] => .ok []
   | (k, v) :: rest => (anyKey k).bind fun ks => (anyValue v).bind fun a => (anyEntries rest).bind fun es =>
